@@ -116,6 +116,7 @@ let c10_oracles (ops : string list) (impl : res list list list) : (string * bool
       | Other "E:ConnAccepted" -> connected := true
       | Other "E:PubAccepted" -> if !pub_requested then publishing := true
       | Other s when starts_with "E:Video:" s || starts_with "E:Audio:" s -> if not !play_active then media_ok := false
+      | Other s when starts_with "E:Meta:" s -> if not (!play_active || !pub_requested) then media_ok := false   (* needs an active stream *)
       | _ -> ()) all) ops impl
   with Invalid_argument _ -> ());
   [ "C10.connect_only_when_disconnected", !connect_ok; "C10.media_events_only_while_play_requested_or_running", !media_ok;
@@ -130,9 +131,10 @@ let oracle (toks : string list) (obs : string) : (string * bool) list =
       | ("video" | "audio") :: _ :: "1" :: _ -> n + 1 | _ -> n) 0 ops in
   let marked = List.length (List.filter fst pk) in
   let checks = [ "C18.droppable_only_when_asked", marked <= asked_drop ] in
+  let checks = (match stamp_oracle ops (J_server.parse_obs obs) None with Some b -> ("C18.messages_carry_expected_timestamp_and_stream", b) :: checks | None -> checks) in
   let checks = (match ack_oracle ops (J_server.parse_obs obs) with Some b -> ("C17.ack_exactly_when_due", b) :: checks | None -> checks) in
   let checks = c10_oracles ops (J_server.parse_obs obs) @ checks in
-  if J_server.has_failed_call obs then checks
+  if J_server.has_failed_call obs then checks @ [ "C18.decodable_despite_failed_call", decodable pk (fun _ _ -> true) ]
   else
     checks @ [ "C18.decodable", decodable pk (fun _ _ -> true);
                "C18.decodable_all_droppable_removed", decodable pk (fun _ d -> not d);
